@@ -90,6 +90,11 @@ def r_compliances(ctx, model):
     ctx.check(not bad and tuple(m.shape) == (6, 6), "inverted matrix = symmetric assembly of modulus_adiabatic", w,
               expected="M[i-1,j-1] = M[j-1,i-1] = modulus_adiabatic[c_ij] for all 21 keys", found="; ".join(bad[:6]) or "as required",
               explanation="the 6x6 stiffness that is inverted is not the full symmetric adiabatic tensor", key="compliances.assembly")
+    cut = getattr(inv[0], "truncated", None)
+    ctx.check(cut is None, "the compliance tensor is the inverse itself, for every conditioning of the stiffness", w, expected="numpy.linalg.inv (or a pseudo-inverse with the default cut-off)",
+              found=f"pseudo-inverse with cut-off {cut}" if cut is not None else "an inverse",
+              explanation=f"the stiffness is inverted by a pseudo-inverse that drops every eigenvalue below {cut} x the largest one: for a tensor with a soft mode "
+                          f"(near an elastic instability) the compliances are not the inverse, and the Reuss and Hill averages are wrong", key="compliances.truncated")
     comp = calc.attrs.get("_compliances")
     if not isinstance(comp, DictV):
         raise AnalysisError("_calculate_compliances does not bind self._compliances to a dict")
